@@ -3,7 +3,7 @@ import struct
 from props.util import *
 from props import wire, shuf
 
-TRUSTED = BASE_TRUSTED + ["memory use is MEASURED on the implementation (counting global allocator in the harness) against a linear bound; the allocator / OS are not modelled and no allocation theorem is claimed",
+TRUSTED = BASE_TRUSTED + ["memory: the model-level statement (decoded data backed by consumed input, counts accepted only when backed) is proved in Proofs/SizeP.v; the allocator / OS are not modelled — heap use of the implementation is MEASURED (counting global allocator in the harness) against a linear bound",
                           "ristretto and Ed25519 decoders are exercised on the implementation only (no panic, bounded allocation)"]
 RULE = ("for every wire type and every backend: random byte strings (length 0..600), valid encodings with bit flips / truncation / "
         "extension, u32 length prefixes replaced by 1, 2^16, 2^31, 2^32-1 at every vector position, out-of-range u16 digits; each "
